@@ -503,6 +503,24 @@ func c08EveryLength(c *fw.Ctx, idx int) {
 				return
 			}
 			c.Eval(3)
+			if layout == geom.XYM {
+				// the same XYM line into a box that already has a Z (an XYZM box)
+				var b4 *geom.Bounds
+				if c.Guard("panic", func() {
+					b4 = geom.NewBounds(geom.XYZ).Extend(geom.NewPointFlat(geom.XYZ, []float64{0, 0, 42})).Extend(geom.NewLineStringFlat(layout, flat))
+				}) {
+					return
+				}
+				c.Eval(1)
+				mlo, mhi := -1000000.0, 0.0
+				if n == 1 {
+					mhi = mlo
+				}
+				if !(b4.Layout() == geom.XYZM && b4.Min(3) == mlo && b4.Max(3) == mhi && b4.Max(0) == float64(n-1) && b4.Min(1) == float64(-(n-1)) && b4.Min(0) == 0 && b4.Max(1) == 0 && b4.Min(2) == 42 && b4.Max(2) == 42) {
+					c.Fail("wrong-bounds", "XYM line of %d coordinates (extreme M at coordinate %d) extended into an XYZ box holding (0 0 42): layout %s, X [%v, %v], Y [%v, %v], Z [%v, %v], M [%v, %v]; exact XYZM, X [0, %d], Y [%d, 0], Z [42, 42], M [%v, %v]", n, j, b4.Layout(), b4.Min(0), b4.Max(0), b4.Min(1), b4.Max(1), b4.Min(2), b4.Max(2), b4.Min(3), b4.Max(3), n-1, -(n - 1), mlo, mhi)
+					return
+				}
+			}
 			for bi, b := range []*geom.Bounds{b1, b2, b3} {
 				how := []string{"LineString.Bounds()", "NewBounds().Extend(LineString)", "Bounds() of a collection holding the coordinates as a MultiPoint"}[bi]
 				if b.Layout() != layout {
